@@ -2,7 +2,7 @@
 (* Trace validation for Module::disassemble (C07): header comment, exactly one line per
    instruction in assembly order, token structure of every line (Disasm!LineToks), and the
    text read back with the vocabulary reconstructs the instruction stream exactly.
-   code 1 = mismatch, 5 = panic. *)
+   code 1 = mismatch, 5 = panic of disassemble, 4 = panic of the loader. *)
 EXTENDS Integers, Sequences, FiniteSets, TLC, Disasm
 
 Rec == ndJsonDeserialize(IOEnv.TRACE)
@@ -32,10 +32,11 @@ OK(e) ==
   \* "Reading the text back with the same vocabulary reconstructs the instruction stream exactly"
   /\ e.reread_ok /\ Len(e.reread) = Len(all) /\ \A j \in 1..Len(all) : SameModuloNaN(all[j], e.reread[j])
 
-Code(e) == IF e.st = "panic" THEN 5 ELSE IF OK(e) THEN 0 ELSE 1
+\* "loadpanic": the loader panicked before there was a module to print (code 4: a panic, but not one of disassemble)
+Code(e) == IF e.st = "loadpanic" THEN 4 ELSE IF e.st = "panic" THEN 5 ELSE IF OK(e) THEN 0 ELSE 1
 Init == l = 1 /\ bad = <<>>
 Next == /\ l <= Len(Rec)
-        /\ LET c == IF Rec[l].ev = "disasm" THEN Code(Rec[l]) ELSE 0 IN bad' = IF c = 0 THEN bad ELSE Append(bad, <<l, c>>)
+        /\ LET c == IF Rec[l].ev = "disasm" THEN Code(Rec[l]) ELSE 0 IN bad' = IF c = 0 THEN bad ELSE (IF Len(bad) >= 5000 THEN bad ELSE Append(bad, <<l, c>>))
         /\ l' = l + 1
 Spec == Init /\ [][Next]_vars
 Done == l = Len(Rec) + 1
